@@ -1,14 +1,130 @@
 (* C18 — solid primitives are closed, outward-facing and of the right volume.
-   Statements only; proofs live in Gen/ClosedProofs.v and Gen/GenProofs.v. *)
-From PF Require Import Gen.Closed Gen.ClosedProofs Gen.Sphere Gen.Hemisphere Gen.Cylinder Gen.Cube Gen.GenProofs.
+   Statements only; the proofs live in Gen/{ClosedProofs,FamilyProofs,CylinderProofs,SphereProofs,CubeProofs}.v.
+
+   Reading guide.  [sphere_idx r c], [sphereU_idx r c], [hemi_idx r c], [cyl_idx n], [cubeW_idx], [cubeQ_idx]
+   are Gallina copies of the index-generating loops of modeling/primitives (tied to the Go code on every run of
+   the check: index lists and coincidence classes compared exactly).  [*_cls] maps a vertex number to the
+   representative of the set of vertices at the same position ("once coincident positions are merged").
+   [closed_idx cls idx] : the index count is a multiple of 3 and, after replacing every index by its class,
+   no triangle is degenerate, no directed edge is used twice and the reverse of every used directed edge is
+   used too — i.e. a closed (boundaryless, 2-manifold-edged), consistently oriented surface. *)
+From PF Require Import Gen.Closed Gen.ClosedProofs Gen.FamilyProofs Gen.Sphere Gen.Hemisphere Gen.Cylinder Gen.Cube
+  Gen.CylinderProofs Gen.SphereProofs Gen.CubeProofs Gen.GenProofs.
+From Coq Require Import Reals.
 Open Scope N_scope.
 
-(* the executable checker decides closedness: no degenerate triangle, every directed edge used at most
-   once, the reverse of every used directed edge used as well *)
+(* ---------- what "closed" means, and the checker that decides it ---------- *)
+
+(* in a closed triangle list every directed edge occurs exactly once, its reverse exactly once *)
+Theorem closed_edge_counts : forall (eq_dec : forall x y : N * N, {x = y} + {x <> y}) (ts : list (N * N * N)),
+  closed ts -> forall e, In e (dedges ts) ->
+    count_occ eq_dec (dedges ts) e = 1%nat /\ count_occ eq_dec (dedges ts) (erev e) = 1%nat /\ erev e <> e.
+Proof. exact (@ClosedProofs.closed_edge_counts N). Qed.
+Print Assumptions closed_edge_counts.
+
+(* the executable checker used by the check on the implementation's own output decides closedness *)
 Theorem closedb_iff : forall ts : list (N * N * N), closedb ts = true <-> closed ts.
 Proof. exact ClosedProofs.closedb_iff. Qed.
 Print Assumptions closedb_iff.
 
-Theorem sphere_closed_small : forall r c, 2 <= r <= 24 -> 3 <= c <= 24 -> closed_idx sphere_cls (sphere_idx r c).
-Proof. exact GenProofs.sphere_closed_small. Qed.
-Print Assumptions sphere_closed_small.
+(* the proof device: distinct parameters, no degenerate triangle, no directed edge shared by two triangles,
+   every directed edge has a twin *)
+Theorem family_closed : forall (P V : Type) (T : P -> V * V * V) (ps : list P), good T ps -> closed (map T ps).
+Proof. exact (@FamilyProofs.good_closed). Qed.
+Print Assumptions family_closed.
+
+(* ---------- closed + consistently oriented, for EVERY admissible count ---------- *)
+
+(* UVSphere(radius, rows, columns): the constructor accepts exactly rows >= 2, columns >= 3 *)
+Theorem sphere_closed : forall r c, 2 <= r -> 3 <= c -> closed_idx sphere_cls (sphere_idx r c).
+Proof. exact SphereProofs.sphere_closed. Qed.
+Print Assumptions sphere_closed.
+
+(* UVSphereUnwelded: closed under its coincidence classes … *)
+Theorem sphereU_closed : forall r c, 2 <= r -> 3 <= c -> closed_idx (sphereU_cls r c) (sphereU_idx r c).
+Proof. exact SphereProofs.sphereU_closed. Qed.
+Print Assumptions sphereU_closed.
+
+(* … because merging its coincident vertices gives back exactly the welded sphere's index list *)
+Theorem sphereU_welds : forall r c, map (sphereU_cls r c) (sphereU_idx r c) = sphere_idx r c.
+Proof. exact SphereProofs.sphereU_welds. Qed.
+Print Assumptions sphereU_welds.
+
+(* Hemisphere.UV(rows, columns) — base disc included whatever the Capped flag says (the code ignores it) *)
+Theorem hemi_closed : forall r c, 2 <= r -> 3 <= c -> closed_idx hemi_cls (hemi_idx r c).
+Proof. exact SphereProofs.hemi_closed. Qed.
+Print Assumptions hemi_closed.
+
+(* Cylinder{Sides: n}.ToMesh() with both caps; seam column and cap rims merged by cyl_cls *)
+Theorem cyl_closed : forall n, 3 <= n -> closed_idx (cyl_cls n) (cyl_idx n).
+Proof. exact CylinderProofs.cyl_closed. Qed.
+Print Assumptions cyl_closed.
+
+(* Cube.Welded (index table) and Cube.UnweldedQuads (six quads, corners merged by cubeQ_cls) *)
+Theorem cubeW_closed : closed_idx cubeW_cls cubeW_idx.
+Proof. exact CubeProofs.cubeW_closed. Qed.
+Print Assumptions cubeW_closed.
+Theorem cubeQ_closed : closed_idx cubeQ_cls cubeQ_idx.
+Proof. exact CubeProofs.cubeQ_closed. Qed.
+Print Assumptions cubeQ_closed.
+
+(* ---------- well-formed indices: whole triangles, every index below the vertex count ---------- *)
+Theorem sphere_wf : forall r c, 2 <= r -> 1 <= c -> wf_idx (sphere_nverts r c) (sphere_idx r c).
+Proof. exact SphereProofs.sphere_wf. Qed.
+Print Assumptions sphere_wf.
+Theorem sphereU_wf : forall r c, 2 <= r -> 1 <= c -> wf_idx (sphereU_nverts r c) (sphereU_idx r c).
+Proof. exact SphereProofs.sphereU_wf. Qed.
+Print Assumptions sphereU_wf.
+Theorem hemi_wf : forall r c, 2 <= r -> 1 <= c -> wf_idx (hemi_nverts r c) (hemi_idx r c).
+Proof. exact SphereProofs.hemi_wf. Qed.
+Print Assumptions hemi_wf.
+Theorem cyl_wf : forall n, 1 <= n -> wf_idx (cyl_nverts n) (cyl_idx n).
+Proof. exact CylinderProofs.cyl_wf. Qed.
+Print Assumptions cyl_wf.
+Theorem cube_wf : wf_idx cubeW_nverts cubeW_idx /\ wf_idx cubeQ_nverts cubeQ_idx.
+Proof. exact (conj CubeProofs.cubeW_wf CubeProofs.cubeQ_wf). Qed.
+Print Assumptions cube_wf.
+
+(* ---------- the boxes over the reals: exact volume, outward faces, outward vertex normals ---------- *)
+Open Scope R_scope.
+
+(* enclosed volume (divergence-theorem sum / 6) = width * height * depth, for every real width, height, depth *)
+Theorem cube_volume : forall w h d : R,
+  rvol6 (tri_pos (cubeW_posR (w / 2) (h / 2) (d / 2)) cubeW_idx) / 6 = w * h * d /\
+  rvol6 (tri_pos (cubeQ_posR (w / 2) (h / 2) (d / 2)) cubeQ_idx) / 6 = w * h * d.
+Proof. exact CubeProofs.cube_volume. Qed.
+Print Assumptions cube_volume.
+
+(* every face of either box points away from the centre, for all positive extents *)
+Theorem cube_outward : forall hw hh hd : R, 0 < hw -> 0 < hh -> 0 < hd ->
+  Forall (rfaces_away rzero) (tri_pos (cubeW_posR hw hh hd) cubeW_idx) /\
+  Forall (rfaces_away rzero) (tri_pos (cubeQ_posR hw hh hd) cubeQ_idx).
+Proof. intros. split; [apply CubeProofs.cubeW_outward|apply CubeProofs.cubeQ_outward]; assumption. Qed.
+Print Assumptions cube_outward.
+
+(* the vertex normals (welded: the corner direction; quads: the turned `up`) are on the outer side of every
+   incident face *)
+Theorem cube_normals_outward : forall hw hh hd : R, 0 < hw -> 0 < hh -> 0 < hd ->
+  normals_outer (cubeW_posR hw hh hd) (cubeW_posR hw hh hd) cubeW_idx /\
+  normals_outer (cubeQ_posR hw hh hd) cubeQ_nrmR cubeQ_idx.
+Proof. intros. split; [apply CubeProofs.cubeW_normals_outward|apply CubeProofs.cubeQ_normals_outward]; assumption. Qed.
+Print Assumptions cube_normals_outward.
+
+(* the real-valued position tables are the integer tables the harness compares with the implementation *)
+Theorem cube_positions_Z : forall a b c : Z,
+  cubeW_posR (IZR a) (IZR b) (IZR c) = map rv3 (cubeW_pos a b c) /\
+  cubeQ_posR (IZR a) (IZR b) (IZR c) = map rv3 (cubeQ_pos a b c).
+Proof. intros. split; [apply CubeProofs.cubeW_posR_Z|apply CubeProofs.cubeQ_posR_Z]. Qed.
+Print Assumptions cube_positions_Z.
+Close Scope R_scope.
+
+(* ---------- non-vacuity ---------- *)
+(* the smallest sphere: a triangular bipyramid *)
+Example sphere_2_3 : tris_of (sphere_idx 2 3) = [(0, 2, 1); (4, 1, 2); (0, 3, 2); (4, 2, 3); (0, 1, 3); (4, 3, 1)].
+Proof. exact GenProofs.sphere_2_3. Qed.
+(* the classes matter: an unmerged cylinder is open; two columns / sides (which the sphere constructors reject)
+   would not be closed *)
+Example cyl_unmerged_open : closed_idxb (fun v => v) (cyl_idx 5) = false.
+Proof. exact GenProofs.cyl_unmerged_open. Qed.
+Example sphere_2cols_not_closed : closed_idxb sphere_cls (sphere_idx 3 2) = false.
+Proof. exact GenProofs.sphere_2cols_not_closed. Qed.
